@@ -321,10 +321,43 @@ impl Session {
     pub fn drop_store(&mut self) {
         ev(json!({"e": "b", "op": "drop", "args": {}}));
         if let Some(rl) = self.rl.take() {
-            let r = catch_unwind(AssertUnwindSafe(move || drop(rl)));
-            if let Some(w) = self.wid.take() {
-                self.closed_of.insert(w, true);
+            let wid = self.wid.take();
+            if let Some(w) = &wid {
+                self.closed_of.insert(w.clone(), true);
             }
+            // The drop may wait for the worker; in gated mode the worker is parked, so the
+            // drop runs on a helper thread while this thread keeps stepping the worker.
+            let h = std::thread::Builder::new()
+                .name("driver".into())
+                .spawn(move || catch_unwind(AssertUnwindSafe(move || drop(rl))).is_ok())
+                .unwrap();
+            let mut stepped = 0u64;
+            if gate::mode() == gate::Mode::Gated {
+                let t0 = Instant::now();
+                while !h.is_finished() {
+                    if t0.elapsed() < Duration::from_millis(3) {
+                        std::thread::sleep(Duration::from_micros(100));
+                        continue;
+                    }
+                    let Some(w) = &wid else { break };
+                    let k = self.workers.iter().position(|x| x == w).unwrap() + 1;
+                    let r = self.wstep(k);
+                    if r == "exited" || r == "noworker" || r.starts_with("err") {
+                        break;
+                    }
+                    if r == "notparked" || r == "blocked" {
+                        std::thread::sleep(Duration::from_micros(100));
+                    } else {
+                        stepped += 1;
+                    }
+                    if t0.elapsed() > Duration::from_secs(10) {
+                        break;
+                    }
+                }
+            }
+            let ok = h.join().unwrap_or(false);
+            let r: Result<(), ()> = if ok { Ok(()) } else { Err(()) };
+            let _ = stepped;
             let res = if r.is_ok() { "ok" } else { "panic" };
             ev(json!({"e": "r", "op": "drop", "res": res, "seg": [0, 0], "obs": {}, "dir": dir_listing(&self.dir)}));
         } else {
@@ -499,6 +532,24 @@ impl Session {
                 let k = step["n"].as_u64().unwrap_or(1) as usize;
                 let n = self.wrun_idle(k);
                 ev(json!({"e": "wrun", "w": k, "steps": n}));
+            }
+            "wfree" => {
+                // release worker n for good and wait until it has quit (or 2 s)
+                let k = step["n"].as_u64().unwrap_or(1) as usize;
+                let mut res = "noworker";
+                if let Some(w) = self.workers.get(k.wrapping_sub(1)).cloned() {
+                    gate::set_free(&w);
+                    let t0 = Instant::now();
+                    res = "timeout";
+                    while t0.elapsed() < Duration::from_secs(2) {
+                        if gate::wstate(&w).map(|s| s.exited).unwrap_or(false) {
+                            res = "exited";
+                            break;
+                        }
+                        std::thread::sleep(Duration::from_micros(100));
+                    }
+                }
+                ev(json!({"e": "wfree", "w": k, "at": res}));
             }
             "wait_idle" => {
                 let r = self.wait_idle();
